@@ -627,6 +627,8 @@ def evaluate_cases(prop, case_iter, stats, max_mismatches=25, sample_every=None,
     """Run cases through driver and implementation; return list of Mismatch."""
     mismatches = []
     buf = []
+    t_start = [time.time()]
+    budget = float(os.environ.get("VERIF_FAILING_RUN_BUDGET", "300"))
 
     def flush():
         if not buf:
@@ -639,8 +641,12 @@ def evaluate_cases(prop, case_iter, stats, max_mismatches=25, sample_every=None,
         for c in buf:
             exp = outs[pos:pos + len(c.lines)]
             pos += len(c.lines)
-            if sum(1 for m in mismatches if m.case.kind == "prop") >= max_mismatches:
+            n_prop_ = sum(1 for m in mismatches if m.case.kind == "prop")
+            if n_prop_ >= max_mismatches:
                 break       # enough failing inputs; do not burn watchdog time on more of them
+            if n_prop_ and time.time() - t_start[0] > budget:
+                stats.tags["cut-short-after-failing-input"] = 1
+                break       # a failing input is in hand and the run crawls
             t_ = getattr(prop, "timeout", 2.0) * max(1, len(c.lines) // 20 + 1)
             obs = call_impl(c.impl, timeout=t_, err_map=prop.err_map)
             if obs == "diverged":
@@ -693,8 +699,6 @@ def evaluate_cases(prop, case_iter, stats, max_mismatches=25, sample_every=None,
                 mismatches.append(Mismatch(c, exp, obs))
         buf.clear()
 
-    t_start = time.time()
-    budget = float(os.environ.get("VERIF_FAILING_RUN_BUDGET", "300"))
     for c in case_iter:
         buf.append(c)
         if sum(len(x.lines) for x in buf) >= prop.chunk:
@@ -702,7 +706,7 @@ def evaluate_cases(prop, case_iter, stats, max_mismatches=25, sample_every=None,
             n_prop = sum(1 for m in mismatches if m.case.kind == "prop")
             if n_prop >= max_mismatches:
                 break
-            if n_prop and time.time() - t_start > budget:
+            if n_prop and time.time() - t_start[0] > budget:
                 # a failing input is in hand and the run is slow (changed code can make every case crawl): report now.
                 # (A run without property mismatches is never cut short.)
                 stats.tags["cut-short-after-failing-input"] = 1
